@@ -183,22 +183,21 @@ func guardReplay(args []string) {
 			pkAltered := digestJSON(out["publicKey"]) != pkBefore
 			svcAltered := digestJSON(out["service"]) != svcBefore
 
-			// binding of the model: the real effect must be one the model says is possible
-			if (pkAltered && !c.MayAlterPK) || (svcAltered && !c.MayAlterSvc) {
-				modelWrong++
-				col.report(mismatch{Kind: "model-binding", Key: guardKey("model-binding", c.Ops), Case: c,
-					Detail:   "the real library altered a protected member where the model says no operation of the list writes there",
-					Concrete: map[string]interface{}{"patch": json.RawMessage(raw), "document": di, "result": out}, Replay: rp})
-
-				continue
-			}
-
 			if !pkAltered && !svcAltered {
 				continue
 			}
 
 			if verr != nil {
 				alteredUnvalidated++ // what validation is there to stop
+
+				// binding of the model: the real effect must be one the model says is possible
+				if (pkAltered && !c.MayAlterPK) || (svcAltered && !c.MayAlterSvc) {
+					modelWrong++
+					col.report(mismatch{Kind: "model-binding", Key: guardKey("model-binding", c.Ops), Case: c,
+						Detail:   "the real library altered a protected member where the model says no operation of the list writes there",
+						Concrete: map[string]interface{}{"patch": json.RawMessage(raw), "document": di, "result": out}, Replay: rp})
+				}
+
 				continue
 			}
 
